@@ -56,6 +56,9 @@ SharemapOK(e, M) ==
 PerServerOK(e, M) ==
   /\ {ToString(v) : v \in VersIn(M)} = DOMAIN e.persrv
   /\ \A v \in VersIn(M) : ToSet(e.persrv[ToString(v)]) = ServersOf(M, v)
+OnServerOK(e, M) ==
+  /\ {p[1] \o "/" \o ToString(p[2]) : p \in KnownShares(M)} = DOMAIN e.onsrv
+  /\ \A p \in KnownShares(M) : e.onsrv[p[1] \o "/" \o ToString(p[2])] = M[p[1]][p[2]]
 ApiClause(e, M) ==
   IF ToSet(e.rec) # Recoverable(M) \/ e.nrec # Cardinality(Recoverable(M)) THEN "api_recoverable_versions"
   ELSE IF ToSet(e.unrec) # Unrecoverable(M) \/ e.nunrec # Cardinality(Unrecoverable(M)) THEN "api_unrecoverable_versions"
@@ -67,6 +70,7 @@ ApiClause(e, M) ==
   ELSE IF e.hiseq # MaxSeq(V, M) THEN "api_highest_seqnum"
   ELSE IF ToSet(e.allsrv) # AllServers(M) THEN "api_all_servers"
   ELSE IF ~PerServerOK(e, M) THEN "api_all_servers_for_version"
+  ELSE IF ~OnServerOK(e, M) THEN "api_version_on_server"
   ELSE ""
 
 (* ---- events ------------------------------------------------------------------------------ *)
@@ -133,6 +137,7 @@ VAns(e) ==
      ELSE IF \E sh \in Shnums : Corrupt(V, Ls[sh]) /\ sh \notin allbad THEN R("corrupt_share_not_recorded", T)
      ELSE IF \E sh \in newbad : ~(Corrupt(V, Ls[sh]) \/ Soft(V, Ls[sh])) THEN R("good_share_marked_bad", T)
      ELSE IF ~(Bs \subseteq allbad) THEN R("bad_mark_forgotten", T)
+     ELSE IF ToSet(e.badcs) \cap newbad # {} THEN R("bad_share_checkstring_wrong", T)
      ELSE IF u.needpriv /\ PrivMust(V, Ls) /\ ~e.priv THEN R("privkey_not_fetched", T)
      ELSE IF u.needpriv /\ e.priv /\ ~PrivMay(V, Ls) THEN R("privkey_from_nowhere", T)
      ELSE OK(T)
